@@ -32,6 +32,10 @@ def configs(tier, seed):
       # datapoints entering through the daemon's pipeline (service.setupPipeline(['write'])), tagged series spelled in
       # whatever order / syntax the client likes: a re-sent datapoint is an update whatever its spelling
       cfgs.append(dict(name='max%d/fc%d/pipeline-%s' % (mx, fc, sts[0]), max=mx, fc=fc, strategy=sts[0], pipeline=True))
+      if fc:
+        # RELAY_CACHE_METRICS with no destination up: the daemon's self-metrics wait in the relay buffer and are stored
+        # from inside the cacheSpaceAvailable -> resumeReceivingMetrics dispatch, i.e. re-entrantly during a drain
+        cfgs.append(dict(name='max%d/fc%d/relaybuf-%s' % (mx, fc, sts[-1]), max=mx, fc=fc, strategy=sts[-1], pipeline=True, relaybuf=True))
   # the same limits configured through a per-instance section ([cache:b]) overriding other values in [cache]
   for (mx, fc, base) in ((3, True, dict(MAX_CACHE_SIZE=50, USE_FLOW_CONTROL=False)), (4, False, dict(MAX_CACHE_SIZE=4, USE_FLOW_CONTROL=True)),
                          (2, True, dict()), (5, False, dict(MAX_CACHE_SIZE='inf'))):
@@ -109,6 +113,8 @@ def oracle(h, world):
         out.append(('admitted-over-limit', 'new datapoint admitted with size %d >= hard limit %s' % (b[2], world.hard_max)))
       if not key_cached and world.bound is not None and b[2] < world.hard_max and a[2] != b[2] + 1 and 'exc' not in s:
         out.append(('accept-size', 'accepted new datapoint changed size %d -> %d' % (b[2], a[2])))
+  if getattr(h, 'self_prefix', None):
+    nsig = h.all_signals.count('overflow')       # refusals of the daemon's own (re-injected) self-metrics are signalled too
   if h.stats.get('cache.overflow', 0) != nsig:
     out.append(('overflow-counter', 'cache.overflow counter %r but %d overflow signals observed' % (h.stats.get('cache.overflow', 0), nsig)))
   out.extend(cachesim.check_conservation(h))
@@ -127,7 +133,10 @@ def run_config(cfg, res):
       over['USE_FLOW_CONTROL'] = cfg['fc']
     ns = boot.boot('carbon-cache', base, instance=cfg['instance'], instance_conf=over or {'MAX_CACHE_SIZE': cfg['max']})
   else:
-    ns = boot.boot('carbon-cache', {'CACHE_WRITE_STRATEGY': cfg['strategy'], 'MAX_CACHE_SIZE': cfg['max'], 'USE_FLOW_CONTROL': cfg['fc']})
+    conf = {'CACHE_WRITE_STRATEGY': cfg['strategy'], 'MAX_CACHE_SIZE': cfg['max'], 'USE_FLOW_CONTROL': cfg['fc']}
+    if cfg.get('relaybuf'):
+      conf.update({'RELAY_CACHE_METRICS': True, 'DYNAMIC_ROUTER': True, 'RELAY_METHOD': 'consistent-hashing', 'DESTINATIONS': '127.0.0.1:2004:a'})
+    ns = boot.boot('carbon-cache', conf)
   world = cachesim.World(ns, full_pipeline=bool(cfg.get('pipeline')))
   world.store_through_pipeline = bool(cfg.get('pipeline'))
   exp_hard = cfg['max'] * 1.05 if cfg['fc'] else cfg['max']
@@ -138,6 +147,10 @@ def run_config(cfg, res):
   nh = 3 if cfg['tier'] == 'quick' else 8
   for i in range(nh):
     ops, ndr = gen_history(r, cfg['max'], tagged=bool(cfg.get('pipeline')))
+    if cfg.get('relaybuf'):
+      for _ in range(r.randint(1, 4)):
+        ops.insert(r.randrange(0, len(ops) + 1), ('relaybuf',))
+      ndr += 2
     seen = set()
     hk = hash(repr(ops))
 
